@@ -255,6 +255,16 @@ func (w *World) parkAlways(site string) {
 // Close implements net.Conn.
 func (e *End) Close() error {
 	c := e.c
+	if e.server {
+		// closing can take a while (a lingering socket): a parking seam, armed as
+		// "conn-close", before anything is closed
+		if c.w.Quiet {
+			c.w.QuietYield("conn-close")
+		} else if c.w.siteArmedNow("conn-close") {
+			c.w.Rec(Ev{Actor: e.actor, Kind: "close-begin", Conn: c.ID})
+			c.w.Park("conn-close")
+		}
+	}
 	c.mu.Lock()
 	already := e.closed
 	e.closed = true
